@@ -133,6 +133,42 @@ Proof.
   rewrite Zminus_mod, Z.mod_mod, Z.sub_diag by lia. apply Z.mod_0_l; lia.
 Qed.
 
+(* uv__thread_stack_size always yields a size pthread_attr_setstacksize/pthread_create can
+   work with: at least the minimum, a multiple of the page (when the default is), never the
+   unlimited marker or anything derived from it -- exactly the 2 MiB default whenever the soft
+   limit is unlimited, cannot be read, or rounds to less than the minimum -- and otherwise
+   the soft limit rounded down to a page (so at most the limit the user set). *)
+Ltac tss_fin :=
+  intros; try discriminate;
+  repeat match goal with H : RlCur _ = RlCur _ |- _ => inversion H; subst; clear H end;
+  auto; try congruence; try lia.
+
+Theorem thread_stack_size_accepted page psm rl :
+  0 < page -> psm <= default_stack_size ->
+  let r := thread_stack_size page psm rl in
+  min_stack_size psm <= r /\
+  (rl = RlFail -> r = default_stack_size) /\
+  (rl = RlCur RLIM_INFINITY -> r = default_stack_size) /\
+  (forall cur, rl = RlCur cur -> cur - cur mod page < min_stack_size psm -> r = default_stack_size) /\
+  (forall cur, rl = RlCur cur -> cur <> RLIM_INFINITY -> min_stack_size psm <= cur - cur mod page ->
+     r = cur - cur mod page /\ (0 <= cur -> r <= cur)) /\
+  (forall cur, rl = RlCur cur -> 0 <= cur <= RLIM_INFINITY -> r <= Z.max default_stack_size (RLIM_INFINITY - 1)) /\
+  (default_stack_size mod page = 0 -> r mod page = 0).
+Proof.
+  intros Hp Hpsm. cbv zeta.
+  assert (Hmin : min_stack_size psm <= default_stack_size).
+  { unfold min_stack_size, default_stack_size in *. destruct (8192 <? psm); lia. }
+  assert (Hbig : default_stack_size <= Z.max default_stack_size (RLIM_INFINITY - 1)) by lia.
+  unfold thread_stack_size. destruct rl as [|cur].
+  - repeat split; tss_fin.
+  - pose proof (Z.mod_pos_bound cur page Hp) as Hm.
+    assert (Hal : (cur - cur mod page) mod page = 0)
+      by (rewrite Zminus_mod, Z.mod_mod, Z.sub_diag by lia; apply Z.mod_0_l; lia).
+    destruct (cur =? RLIM_INFINITY) eqn:E1.
+    + assert (cur = RLIM_INFINITY) by lia. subst cur. repeat split; tss_fin.
+    + destruct (cur - cur mod page >=? min_stack_size psm) eqn:E2; repeat split; tss_fin.
+Qed.
+
 (* The old failing input (DESIGN item 16, fixed by commit 4452eb2) on the repaired model:
    SIZE_MAX is refused; the code without the guard answered it with the 16 KiB minimum. *)
 Example stack_wrap_fixed_example :
